@@ -81,7 +81,7 @@ def gen(ctx):
 
 
 def correspond(ctx):
-    n = 2500 if ctx.thorough() else 260
+    n = 6000 if ctx.thorough() else 1000
     c = vlib.correspond(ctx, 'c01', 'C01', ['n=%d' % n], timeout=1500 if ctx.thorough() else 400,
                         nontrivial=lambda o, x: x not in ('ok', 'bad-op'))
     c['name'] = 'executor-vs-model'
@@ -110,9 +110,9 @@ def _search_run(ctx, n, cases):
 def search(ctx, hints):
     broken = bool(hints.get('broken'))
     if ctx.thorough():
-        n, cases = 1024, 120
+        n, cases = 1024, 400
     else:
-        n, cases = 64, (260 if broken else 110)
+        n, cases = 64, (900 if broken else 450)
     res, err = _search_run(ctx, n, cases)
     if res is None:
         return dict(evaluations=0, distinct_nontrivial=0, violations=[], samples=[], error=err)
